@@ -15,10 +15,10 @@ type Shape = map[string]any
 
 var wellKnownKeys = []string{"host", "port", "caps", "s", "i", "v", "netId", "router.version", "mtu", "ihost0", "iport0", "ikey0", "itag0", "ih0", "iexp0", "hos", "hostx", "por", "portx", "cap", "capsx", "a", "b", "k"}
 
-// collisionGroups: distinct strings that collide under a common non-cryptographic hash function
+// CollisionGroups: distinct strings that collide under a common non-cryptographic hash function
 // (FNV-1a/32, CRC-32, Java's String.hashCode, DJB2, byte sum / xor). A set or cache keyed by such
 // a hash instead of by the string itself confuses the members of a group.
-var collisionGroups = [][]string{
+var CollisionGroups = [][]string{
 	{"costarring", "liquid"}, {"declinate", "macallums"}, {"altarage", "zinke"}, {"altarages", "zinkes"}, // FNV-1a 32
 	{"plumless", "buckeroo"},                                     // CRC-32
 	{"Aa", "BB"}, {"AaAa", "BBBB", "AaBB", "BBAa"}, {"Ea", "FB"}, // 31-multiplier polynomial
@@ -168,7 +168,7 @@ func Mapping(r *core.Rand, maxPairs int) rm.Mapping {
 	// now and then: all members of a hash-collision group as keys of one mapping; a value that
 	// spells the key of an earlier pair
 	if maxPairs >= 4 && r.Chance(1, 16) {
-		for _, k := range collisionGroups[r.Pick(len(collisionGroups))] {
+		for _, k := range CollisionGroups[r.Pick(len(CollisionGroups))] {
 			if !seen[k] && total+len(k)+8 < 60000 {
 				seen[k] = true
 				m.Pairs = append(m.Pairs, rm.Pair{K: []byte(k), V: randVal(r)})
